@@ -44,6 +44,7 @@ func pick[T any](r *Rng, xs []T) T { return xs[r.Intn(len(xs))] }
 
 var smallIDs = []uint64{0, 1, 2, 3}
 var boundaryU64 = []uint64{0, 1, 2, 3, 127, 128, 255, 256, 65535, 65536, 1<<31 - 1, 1 << 31, 1<<32 - 1, 1 << 32, 1<<63 - 1, 1 << 63, 1<<64 - 1}
+
 // (among them the labels Access.Validate uses for typed resources: a FEATURE may carry such a name)
 var smallStrs = []string{"", "a", "ab", "abc", "b", "litefs-cloud", "wg", "billing", "deletion", "zz", "app", "machine", "volume", "storage-object", "command-execution", "membership", "authentication"}
 var maskPool = []resset.Action{0, 1, 2, 3, 4, 8, 16, 31, 0xffff, 32, 33, 0x8000, 5, 30}
@@ -237,6 +238,10 @@ func (r *Rng) optStr(pNil int) *string {
 func (r *Rng) Dyn() *Dyn {
 	pNil := pick(r, []int{2, 5, 8, 9})
 	d := &Dyn{NowSec: baseNow + int64(r.Intn(7)) - 3, NowNsec: pick(r, []int64{0, 0, 1, 999999999})}
+	if r.Chance(1, 16) {
+		// a request time far from the harness clock: the zero time.Time (an unset timestamp), the epoch, far future
+		d.NowSec, d.NowNsec = pick(r, []int64{-62135596800, 0, -1, 4102444800, 1 << 40}), 0
+	}
 	if r.Chance(1, 8) {
 		d.WF = pick(r, []string{"other", "invalidAccess", "resUnspecified", "resMutEx", "unauthorized"})
 	}
